@@ -207,3 +207,98 @@ func H_C08_escape(n int) {
 		verifAssert(len(out) <= len(val), "unquoted escape is not longer than its literal")
 	}
 }
+
+// ---- C16: JSON string escapes read by the MRO tokenizer ----
+
+func c16Hex(tag string) (byte, rune) {
+	c := verifByte(tag)
+	isDigit := verifAll(c >= '0', c <= '9')
+	isLower := verifAll(c >= 'a', c <= 'f')
+	isUpper := verifAll(c >= 'A', c <= 'F')
+	verifAssume(verifAny(isDigit, isLower, isUpper))
+	switch {
+	case isDigit:
+		return c, rune(c - '0')
+	case isLower:
+		return c, rune(c-'a') + 10
+	}
+	return c, rune(c-'A') + 10
+}
+
+func c16Utf8(cp rune) []byte {
+	switch {
+	case cp < 0x80:
+		return []byte{byte(cp)}
+	case cp < 0x800:
+		return []byte{0xc0 | byte(cp>>6), 0x80 | byte(cp)&0x3f}
+	case cp < 0x10000:
+		return []byte{0xe0 | byte(cp>>12), 0x80 | byte(cp>>6)&0x3f, 0x80 | byte(cp)&0x3f}
+	}
+	return []byte{0xf0 | byte(cp>>18), 0x80 | byte(cp>>12)&0x3f, 0x80 | byte(cp>>6)&0x3f, 0x80 | byte(cp)&0x3f}
+}
+
+// H_C16_jsonEscapes(kind): invocation data is JSON, and its values are read
+// with the MRO value parser.  kind 0: "\uXXXX" with four arbitrary hex digits
+// that are not a surrogate; kind 1: a UTF-16 surrogate pair "\uD8XX\uDCXX" (how
+// JSON writers that escape non-ASCII text spell characters beyond U+FFFF);
+// kind 2: the two-character escapes JSON defines (\" \\ \/ \b \f \n \r \t).
+//
+//	C16: the string the parser produces is the string the JSON text denotes
+//	     (RFC 8259): the UTF-8 encoding of the code point; nothing is lost or
+//	     replaced.
+func H_C16_jsonEscapes(kind int) {
+	var lit, want []byte
+	switch kind {
+	case 0:
+		lit = []byte(`"\u`)
+		var cp rune
+		for i := 0; i < 4; i++ {
+			c, v := c16Hex("hex digit")
+			lit = append(lit, c)
+			cp = cp<<4 | v
+		}
+		lit = append(lit, '"')
+		verifAssume(verifAny(cp < 0xd800, cp > 0xdfff))
+		want = c16Utf8(cp)
+	case 1:
+		lit = []byte(`"\uD`)
+		hi, lo := rune(0xd), rune(0xd)
+		c, v := c16Hex("high surrogate digit")
+		verifAssume(verifAll(v >= 8, v <= 0xb))
+		lit, hi = append(lit, c), hi<<4|v
+		for i := 0; i < 2; i++ {
+			c, v = c16Hex("hex digit")
+			lit, hi = append(lit, c), hi<<4|v
+		}
+		lit = append(lit, `\uD`...)
+		c, v = c16Hex("low surrogate digit")
+		verifAssume(v >= 0xc)
+		lit, lo = append(lit, c), lo<<4|v
+		for i := 0; i < 2; i++ {
+			c, v = c16Hex("hex digit")
+			lit, lo = append(lit, c), lo<<4|v
+		}
+		lit = append(lit, '"')
+		want = c16Utf8(0x10000 + (hi-0xd800)<<10 + (lo - 0xdc00))
+	default:
+		escapes := []byte(`"\/bfnrt`)
+		values := []byte("\"\\/\b\f\n\r\t")
+		i := verifInt("which escape")
+		verifAssume(verifAll(i >= 0, i < len(escapes)))
+		i = verifConcretize(i)
+		lit = []byte{'"', 'a', '\\', escapes[i], 'b', '"'}
+		want = []byte{'a', values[i], 'b'}
+	}
+	var parser Parser
+	exp, err := parser.ParseValExp(lit)
+	verifCover("JSON escape parsed")
+	verifAssert(err == nil, "C16: every string escape JSON defines is accepted in invocation data")
+	if err != nil {
+		return
+	}
+	s, ok := exp.(*StringExp)
+	verifAssert(ok, "C16: a JSON string converts to a string expression")
+	if ok {
+		verifAssert(verifBytesEq([]byte(s.Value), want), "C16: an escaped character in invocation data denotes the same text in the call (\\uXXXX is the code point; a surrogate pair is one character)")
+	}
+}
